@@ -1,3 +1,3 @@
 From Coq Require Import Extraction ExtrOcamlBasic.
 From SLU Require Import SchedModel AllocModel.
-Extraction "alloc_model.ml" preset_map check_slots relax_snode bump_all.
+Extraction "alloc_model.ml" preset_map preset_map_dyn check_slots relax_snode bump_all.
